@@ -82,6 +82,11 @@ pub const WEIRD_TEXTS: &[&str] = &[
 ];
 
 pub fn pipeline(bytes: &[u8], key: u64, st: &mut Stats) -> Check {
+    pipeline_opt(bytes, key, st, false)
+}
+
+/// `light` = reduced query set for the coverage-guided target (throughput matters there).
+pub fn pipeline_opt(bytes: &[u8], key: u64, st: &mut Stats, light: bool) -> Check {
     st.evaluations += 1;
     // metadata
     let meta = guarded(|| {
@@ -95,7 +100,7 @@ pub fn pipeline(bytes: &[u8], key: u64, st: &mut Stats) -> Check {
     let m_params = mapper(bytes, true).map_err(|f| Fail::new("pipeline-panic", f.msg))?;
     let buf = write_cache(bytes).map_err(|f| if f.sig == "write-panic" { Fail::new("pipeline-panic", f.msg) } else { Fail::new("pipeline-error", f.msg) })?;
     let cache = parse_cache(&buf).map_err(|f| if f.sig == "parse-panic" { Fail::new("pipeline-panic", f.msg) } else { Fail::new("pipeline-error", f.msg) })?;
-    let u = guarded(|| Universe::from_bytes(bytes, false, 30, key)).map_err(|p| Fail::new("pipeline-panic", format!("iterating records: {p}")))?;
+    let u = guarded(|| Universe::from_bytes(bytes, false, if light { 5 } else { 30 }, key)).map_err(|p| Fail::new("pipeline-panic", format!("iterating records: {p}")))?;
     // queries
     let mut classes: Vec<&str> = u.known_classes.iter().map(|s| s.as_str()).collect();
     classes.extend(u.other_classes.iter().take(4).map(|s| s.as_str()));
@@ -103,13 +108,22 @@ pub fn pipeline(bytes: &[u8], key: u64, st: &mut Stats) -> Check {
     let mut methods: Vec<&str> = u.known_methods.iter().map(|s| s.as_str()).collect();
     methods.extend(WEIRD_STRINGS.iter().skip(2).take(5));
     let mut lines: Vec<u64> = vec![0, 1, 2, (1 << 32) - 1, 1 << 32, (1 << 32) + 1, u64::MAX - 1, u64::MAX, 1 << 63];
-    lines.extend(u.lines.iter().filter(|l| **l > 66).take(24));
-    let pool = name_pool(&u);
-    let mut texts: Vec<String> = sample_n(&crate::gen::trace::text_trace(&pool, 8), key ^ 0xd13, 3).into_iter().map(|t| t.render()).collect();
-    texts.extend(WEIRD_TEXTS.iter().map(|s| s.to_string()));
-    texts.extend(sample_n(&"\\PC{0,24}", key ^ 0xd14, 3));
-    let mut sigs: Vec<String> = WEIRD_SIGS.iter().map(|s| s.to_string()).collect();
-    sigs.extend(sample_n(&"[()\\[LIVJ;/éa漢𝒳]{0,12}", key ^ 0xd15, 6));
+    lines.extend(u.lines.iter().filter(|l| **l > 66).take(if light { 8 } else { 24 }));
+    let mut texts: Vec<String> = Vec::new();
+    let mut sigs: Vec<String> = Vec::new();
+    if light {
+        classes.truncate(8);
+        methods.truncate(5);
+        texts.extend(WEIRD_TEXTS.iter().take(6).map(|s| s.to_string()));
+        sigs.extend(WEIRD_SIGS.iter().take(8).map(|s| s.to_string()));
+    } else {
+        let pool = name_pool(&u);
+        texts.extend(sample_n(&crate::gen::trace::text_trace(&pool, 8), key ^ 0xd13, 3).into_iter().map(|t| t.render()));
+        texts.extend(WEIRD_TEXTS.iter().map(|s| s.to_string()));
+        texts.extend(sample_n(&"\\PC{0,24}", key ^ 0xd14, 3));
+        sigs.extend(WEIRD_SIGS.iter().map(|s| s.to_string()));
+        sigs.extend(sample_n(&"[()\\[LIVJ;/éa漢𝒳]{0,12}", key ^ 0xd15, 6));
+    }
     let reached = std::cell::Cell::new(false);
     let impls: [&dyn Retracer; 3] = [&m_plain, &m_params, &cache];
     for r in impls {
@@ -155,6 +169,36 @@ pub fn pipeline(bytes: &[u8], key: u64, st: &mut Stats) -> Check {
     }
     if meta.4 > 0 && reached.get() {
         st.nontrivial(fnv64(bytes));
+    }
+    Ok(())
+}
+
+/// Additional free-form trace text / signature string against mapper and cache built from `bytes`.
+pub fn extra_queries(bytes: &[u8], text: &str) -> Check {
+    let m = mapper(bytes, true).map_err(|f| Fail::new("pipeline-panic", f.msg))?;
+    let buf = write_cache(bytes).map_err(|f| Fail::new("pipeline-panic", f.msg))?;
+    let cache = parse_cache(&buf).map_err(|f| Fail::new("pipeline-error", f.msg))?;
+    let impls: [&dyn Retracer; 2] = [&m, &cache];
+    for r in impls {
+        guarded(|| -> Check {
+            if let Err(e) = r.text(text) {
+                return Err(Fail::new("pipeline-error", format!("{}: remap_stacktrace returned Err({e})", r.name())));
+            }
+            if let Some(tr) = proguard::StackTrace::try_parse(text.as_bytes()) {
+                let ast = crate::api::proguard::from_trace(&tr);
+                let _ = r.typed(&ast);
+            }
+            for line in text.lines().take(8) {
+                let _ = r.sig(line);
+                if let Some(f) = proguard::StackFrame::try_parse(line.as_bytes()) {
+                    let _ = r.frame_line(f.class(), f.method(), f.line() as u64, f.file());
+                    let _ = r.frame_params(f.class(), f.method(), f.file().unwrap_or(""));
+                    let _ = r.method(f.class(), f.method());
+                }
+            }
+            Ok(())
+        })
+        .map_err(|p| Fail::new("pipeline-panic", format!("{} free-form query: {p}", r.name())))??;
     }
     Ok(())
 }
